@@ -61,3 +61,52 @@ def level_header_matches_model(path, P, leanio):
         if not text.startswith(m["text"]):
             bad.append(lv)
     return bad
+
+
+def header_request(text):
+    """the content of a global Header text as the driver's `render_header` request (tokens verbatim, trailing
+    whitespace of the geometry / ratio / grid / step / cell-size lines kept per line); None when the text does not
+    have the line structure at all"""
+    L = text.split("\n")
+    try:
+        nv = int(L[1]); names = L[2:2 + nv]; p = 2 + nv
+        nd = int(L[p]); nl = int(L[p + 2]) + 1
+        tr = lambda s: s[len(s.rstrip()):]
+        grid = L[p + 6].split()
+        grid_hi = [[int(x) for x in t.strip("()").split(",")] for t in grid[1::3]]
+        q = p + 8 + nl
+        cur = q + 2
+        levels = []
+        for lv in range(nl):
+            a = L[cur].split(); nb = int(a[1])
+            boxes = [[L[cur + 2 + b * nd + d].split() for d in range(nd)] for b in range(nb)]
+            pth = L[cur + 2 + nb * nd]
+            levels.append({"boxes": boxes, "time": a[2], "step": L[cur + 1], "dir": pth.split("/")[0], "tail": "/".join(pth.split("/")[1:])})
+            cur += 3 + nb * nd
+        return {"op": "render_header", "version": L[0], "names": names, "ndims": nd, "time": L[p + 1],
+                "geo_lo": L[p + 3].split(), "geo_hi": L[p + 4].split(), "factors": [int(x) for x in L[p + 5].split()],
+                "grid_hi": grid_hi, "steps": [int(x) for x in L[p + 7].split()], "dx": [L[p + 8 + k].split() for k in range(nl)],
+                "coord": L[q], "trails": [tr(L[p + 3 + k]) for k in range(5)], "dx_trails": [tr(L[p + 8 + k]) for k in range(nl)],
+                "levels": levels}
+    except (ValueError, IndexError):
+        return None
+
+
+def global_header_theorem_applies(path, leanio):
+    """Is the Header of the plotfile at `path` exactly the text the Lean renderer prints for its content, and does that
+    content satisfy the executable hypothesis of `Header.parse_render` (`HData.goodB`)?  Then the theorem says the model
+    of the reader returns exactly that content.  Returns None when it applies, otherwise what does not."""
+    text = open(os.path.join(path, "Header"), newline="").read()
+    req = header_request(text)
+    if req is None:
+        return "the header does not have the line structure of the renderer"
+    m = leanio.driver([req])[0]
+    if "hex" not in m:
+        return f"driver: {m.get('status')}"
+    if bytes.fromhex(m["hex"]) != text.encode():
+        return "the header text differs from the Lean renderer's text for the same content"
+    if not m.get("good"):
+        return "the header content does not satisfy the hypothesis of the parse-after-render theorem"
+    if m.get("parse") != "ok":
+        return f"the model of the reader does not accept the rendered text ({m.get('parse')})"
+    return None
